@@ -122,6 +122,11 @@ pub struct Cfg {
     pub percent_encode: bool,
     /// clock tick per read, nanoseconds
     pub tick_ns: i64,
+    /// Some(mask): the cookie section of the configuration is built by DESERIALISING a document
+    /// from which the fields whose bit is set are missing (bit 0 name, 1 domain, 2 path, 3 secure,
+    /// 4 http_only, 5 same_site, 6 kind); the fields above then already hold the documented defaults
+    #[serde(default)]
+    pub cookie_serde_omit: Option<u8>,
 }
 
 #[derive(Serialize, Deserialize, Clone, Debug, PartialEq)]
@@ -330,6 +335,18 @@ fn build_config(c: &Cfg) -> SessionConfig {
         _ => None,
     };
     cfg.cookie.kind = if c.persistent { SessionCookieKind::Persistent } else { SessionCookieKind::Session };
+    if let Some(mask) = c.cookie_serde_omit {
+        // a partially specified configuration document, as an application's config file would be
+        let mut doc = serde_json::to_value(&cfg.cookie).expect("cookie config serialises");
+        if let Some(obj) = doc.as_object_mut() {
+            for (bit, key) in ["name", "domain", "path", "secure", "http_only", "same_site", "kind"].iter().enumerate() {
+                if mask & (1 << bit) != 0 {
+                    obj.remove(*key);
+                }
+            }
+        }
+        cfg.cookie = serde_json::from_value(doc).unwrap_or_else(|e| simcore::driver::harness_error(&format!("cookie config does not deserialise: {e}")));
+    }
     cfg
 }
 
@@ -373,6 +390,24 @@ struct SetCookie {
     raw_value: String,
     attrs: Vec<String>,
     removal: bool,
+}
+
+fn pct_decode(s: &str) -> String {
+    let b = s.as_bytes();
+    let mut out = Vec::with_capacity(b.len());
+    let mut i = 0;
+    while i < b.len() {
+        if b[i] == b'%' && i + 2 < b.len() + 0 && i + 2 <= b.len() - 1 + 0 {
+            if let Ok(v) = u8::from_str_radix(&s[i + 1..i + 3], 16) {
+                out.push(v);
+                i += 3;
+                continue;
+            }
+        }
+        out.push(b[i]);
+        i += 1;
+    }
+    String::from_utf8_lossy(&out).to_string()
 }
 
 fn parse_set_cookie(h: &str) -> SetCookie {
@@ -697,7 +732,7 @@ fn run_request(w: &mut World<'_>, ri: usize, req: &Req, shape: &str) {
                 .iter()
                 .filter_map(|v| v.to_str().ok())
                 .map(parse_set_cookie)
-                .find(|c| c.name == w.cfg.cookie_name),
+                .find(|c| c.name == w.cfg.cookie_name || pct_decode(&c.name) == w.cfg.cookie_name),
             Err(_) => None,
         }
     };
@@ -1118,7 +1153,7 @@ fn decode_cookie(w: &World<'_>, c: &SetCookie) -> Option<Wire> {
     let header = format!("{}={}", c.name, c.raw_value);
     let mut rc = RequestCookies::new();
     rc.extend_from_header(&header, &w.processor).ok()?;
-    let v = rc.get(&c.name)?;
+    let v = rc.get(&c.name).or_else(|| rc.get(&pct_decode(&c.name)))?;
     serde_json::from_str::<Wire>(v.value()).ok()
 }
 
@@ -1141,15 +1176,18 @@ fn check_c12_cookie(w: &mut World<'_>, ri: usize, rm: &ReqModel, c: Option<&SetC
         }
         // on the wire: when encryption is required the plaintext must not be visible
         if protected_enc {
+            // the signature says whether the cookie name is one the processor rewrites (percent-
+            // encodes) before looking up its crypto rule: that is the known root cause below
+            let name_rewritten = w.cfg.percent_encode && c.name != w.cfg.cookie_name;
             for id in &rm.ids_held {
                 if c.raw_value.contains(id.as_str()) {
-                    w.out.violations.push(viol("C12", "client-state-encrypted", "id visible on the wire".into(), format!("req{ri}: the encrypted cookie value contains the session id in clear")));
+                    w.out.violations.push(viol("C12", "client-state-encrypted", format!("id visible on the wire (cookie name percent-encoded: {name_rewritten})"), format!("req{ri}: the processor is configured to encrypt `{}` and finalize_session accepted it, yet the emitted value contains the session id in clear", w.cfg.cookie_name)));
                 }
             }
             for v in rm.cli.values() {
                 if let Some(sv) = v.as_str() {
                     if c.raw_value.contains(sv) {
-                        w.out.violations.push(viol("C12", "client-state-encrypted", "value visible on the wire".into(), format!("req{ri}: the encrypted cookie value contains the client value {sv} in clear")));
+                        w.out.violations.push(viol("C12", "client-state-encrypted", format!("value visible on the wire (cookie name percent-encoded: {name_rewritten})"), format!("req{ri}: the processor is configured to encrypt `{}` and finalize_session accepted it, yet the emitted value contains the client value {sv} in clear", w.cfg.cookie_name)));
                     }
                 }
             }
@@ -1507,7 +1545,7 @@ impl Sim for SesSim {
             extend_on_loads: rng.chance(1, 2),
             threshold_milli: *rng.pick(&[None, Some(0), Some(500), Some(800), Some(1000)]),
             ttl_ms,
-            cookie_name: if c12 { rng.pick(&["id", "sid", "__Host-s", "a.b"]).to_string() } else { "id".into() },
+            cookie_name: if c12 { rng.pick(&["id", "sid", "__Host-s", "a.b", "id", "sid", "app:session", "s id", "s@x"]).to_string() } else { "id".into() },
             domain: if rng.chance(1, if c12 { 2 } else { 4 }) { Some(rng.pick(&["example.com", "a.example.org"]).to_string()) } else { None },
             path: if c12 || rng.chance(1, 4) { rng.pick(&[None, Some("/"), Some("/app")]).map(|s| s.to_string()) } else { Some("/".into()) },
             secure: if c12 { rng.chance(1, 2) } else { true },
@@ -1519,7 +1557,35 @@ impl Sim for SesSim {
             with_fallback_key: c12 && rng.chance(1, 4),
             percent_encode: !c12 || rng.chance(3, 4),
             tick_ns: *rng.pick(&[0, 1, 1_000, 1_000_000]),
+            cookie_serde_omit: None,
         };
+        let mut cfg = cfg;
+        if c12 && rng.chance(1, 3) {
+            let mask = (rng.below(127) + 1) as u8;
+            // documented defaults of SessionCookieConfig
+            if mask & 1 != 0 {
+                cfg.cookie_name = "id".into();
+            }
+            if mask & 2 != 0 {
+                cfg.domain = None;
+            }
+            if mask & 4 != 0 {
+                cfg.path = Some("/".into());
+            }
+            if mask & 8 != 0 {
+                cfg.secure = true;
+            }
+            if mask & 16 != 0 {
+                cfg.http_only = true;
+            }
+            if mask & 32 != 0 {
+                cfg.same_site = 2;
+            }
+            if mask & 64 != 0 {
+                cfg.persistent = true;
+            }
+            cfg.cookie_serde_omit = Some(mask);
+        }
         let n = rng.usize(if c12 { 1 } else { 2 }, 8);
         let mut reqs = Vec::new();
         for i in 0..n {
@@ -1624,6 +1690,11 @@ impl Sim for SesSim {
         if s.crypto_switch.is_some() {
             let mut t = s.clone();
             t.crypto_switch = None;
+            c.push(t);
+        }
+        if s.cfg.cookie_serde_omit.is_some() {
+            let mut t = s.clone();
+            t.cfg.cookie_serde_omit = None;
             c.push(t);
         }
         if s.arm != "strict" {
